@@ -90,10 +90,16 @@ def rec_annotation(draw, mode, target, stop, sats):
     raise ValueError(mode)
 
 
+VERTICAL_MODES = ['default', 'shallow', 'not_iterative']
+
+
 @st.composite
-def rec_program(draw):
-    ncomp = draw(st.sampled_from([1, 1, 1, 2]))
-    modes = [draw(st.sampled_from(REC_MODES)) for _ in range(ncomp)]
+def rec_program(draw, vertical_multi=False):
+    """vertical_multi: one component of 3-4 members unfolded vertically, every member
+    with a second rule (the unfolding then builds >= 2 renaming functors from a set)."""
+    ncomp = 1 if vertical_multi else draw(st.sampled_from([1, 1, 1, 2]))
+    modes = [draw(st.sampled_from(VERTICAL_MODES if vertical_multi else REC_MODES))
+             for _ in range(ncomp)]
     if any(m in ('stop', 'diamond_stop', 'infinite_stop') for m in modes):
         engine = 'duckdb'          # stop signals (copy_to_file) exist on DuckDB only
     else:
@@ -103,16 +109,25 @@ def rec_program(draw):
     lines = [engine_line(engine).strip()] if engine else []
     lines += edge_facts(draw, edge)
     labels = ['shape:rec', 'engine:%s' % (engine or 'default')]
+    if vertical_multi:
+        labels.append('vertical_multi_member')
     tests = []
     max_cover = 0
     for c in range(ncomp):
         # sizes are bounded (total members <= 4): compile cost grows quickly with
         # the product of cover size and unfolding depth
-        k = draw(st.integers(1, 4 if ncomp == 1 else 2))
+        k = draw(st.integers(3, 4)) if vertical_multi else \
+            draw(st.integers(1, 4 if ncomp == 1 else 2))
         members = [names.pop() for _ in range(k)]
         mode = modes[c]
         distinct = draw(st.booleans())
         rules = rec_component(draw, members, edge, mode, distinct)
+        if vertical_multi:
+            dd = ' distinct' if distinct else ''
+            # the second rule uses the same predecessor: no cycle avoids members[0]
+            for i in range(1, k):
+                rules.append('%s(x)%s :- %s(x), x > %d;' % (
+                    members[i], dd, members[i - 1], draw(st.integers(0, 3))))
         stop = names.pop()
         sats = []
         if mode in ('stop', 'diamond_stop', 'infinite_stop'):
@@ -148,6 +163,8 @@ def rec_program(draw):
         labels.append('shuffled_statements')
     text = '\n'.join(lines) + '\n'
     preds = [tname] + ([extra_pred] if extra_pred != tname else [])
+    if vertical_multi:
+        preds = [tname] + tests[0][-2:]       # the members farthest from the root
     return {'text': text, 'preds': preds, 'labels': labels, 'role': 'gen',
             'multiset': max_cover >= 2 or ncomp >= 2}
 
@@ -492,6 +509,14 @@ def plain_program(draw):
         preds = list(prog['preds'])[:1]
     return {'text': text, 'preds': preds, 'labels': ['shape:plain', 'engine:sqlite'],
             'role': 'gen', 'multiset': False}
+
+
+@st.composite
+def import_pair(draw):
+    """Two programs importing modules of the same names (lib.alpha, ...) with different
+    contents from different roots: what one process parsed for the first program must
+    not be served to the second."""
+    return (draw(import_program()), draw(import_program()))
 
 
 def program_item(exclude_d3=True):
